@@ -101,6 +101,19 @@ def main():
             sh(["git", "-C", "/repo", "worktree", "remove", "--force", wt])
             shutil.rmtree(wt, ignore_errors=True)
     shutil.rmtree("/tmp/vout_mut", ignore_errors=True)
+    # persistent record (merged): tools/mutant_results.json
+    rp = os.path.join(HERE, "tools", "mutant_results.json")
+    try:
+        rec = json.load(open(rp))
+    except Exception:
+        rec = {}
+    head = sh(["git", "-C", "/repo", "rev-parse", "--short", "HEAD"]).stdout.strip()
+    for mid, row, suite in results:
+        if isinstance(row, dict):
+            rec[mid] = {"repo_head": head, "tier": args.tier,
+                        "checks": {p: {"rc": v["rc"], "first_signature": (v["sigs"][0] if v["sigs"] else None)} for p, v in row.items()},
+                        "suite": suite}
+    json.dump(rec, open(rp, "w"), indent=1, sort_keys=True)
     missed = [i for i, row, _ in results if isinstance(row, dict) and any(v["rc"] != 1 for v in row.values())]
     print(f"{len(results)} mutants, missed/not-detected: {missed}")
 
